@@ -517,10 +517,14 @@ class Interp:
         args = {}
         back = []
         for p, e in zip(sub.params, arg_exprs):
-            v = self.ev(e)
-            args[p] = v
             if e[0] == 'name':
+                if e[1] not in self.fr:
+                    raise FUnsupported(f'unknown name {e[1]}')
+                v = self.fr[e[1]]            # a not-yet-defined actual argument is fine for an intent(out) dummy
                 back.append((p, e[1]))
+            else:
+                v = self.ev(e)
+            args[p] = v
         # pass-by-reference: arrays are shared objects; scalars are copied back after the call
         fr = self.mod.call(name, args)
         for p, nm in back:
